@@ -18,8 +18,7 @@ var (
 
 // N: Calculates the Merkle root from integers.
 func N(v []types.ByteSequence, hashFunc func(types.ByteSequence) types.OpaqueHash) types.ByteSequence {
-	// [[]] should result zero hash
-	if len(v) == 0 || v[0] == nil {
+	if len(v) == 0 {
 		// H0 - return zero hash as bytes
 		return types.ByteSequence(zeroHash[:])
 	} else if len(v) == 1 {
@@ -47,8 +46,7 @@ func N(v []types.ByteSequence, hashFunc func(types.ByteSequence) types.OpaqueHas
 
 // Mb: Well-balanced binary Merkle function
 func Mb(v []types.ByteSequence, hashFunc func(types.ByteSequence) types.OpaqueHash) types.OpaqueHash {
-	// [[]] should go to N
-	if len(v) == 1 && v[0] != nil {
+	if len(v) == 1 {
 		return hashFunc(v[0])
 	} else {
 		// N returns ByteSequence, convert to OpaqueHash
